@@ -183,7 +183,7 @@ def shared_nodes(orig, new):
 
 # ------------------------------------------------------------------ generator
 def gen_case(rng, mode=None):
-    case = c05.gen_case(rng, mode=mode, flavour=rng.choice(["plain", "vectors", "two_models_same_arg"]), max_runs=8)
+    case = c05.gen_case(rng, mode=mode, flavour=rng.choice(["plain", "fine", "vectors", "two_models_same_arg"]), max_runs=8)
     case["memory_seen"] = rng.choice([0, 0, 3, 7])          # what the caller's detector already remembers
     case["stateful"] = rng.sample(["memory", "mutate"], rng.choice([1, 2]))
     case["bag"] = [rng.randrange(9) for _ in range(rng.choice([0, 2, 3]))]
@@ -528,7 +528,7 @@ def body(ck: common.Check):
     cases = []
     for mode in ("product", "sequential", "custom"):
         cases.append(gen_case(rng, mode=mode))
-    for _ in range(5 if quick else 60):
+    for _ in range(5 if quick else 180):
         cases.append(gen_case(rng))
     for case in cases:
         judges += check_sep(ck, case, batch)
